@@ -10,8 +10,7 @@ tables / functions across an effectful sub-expression, `refEqOK`):
 * (F1/F2 — ε-equality of numbers — is FIXED in /repo: `numEqOK` is gone from `h8`)
 * F3    `concatOK`  — at every `..` that is folded: a number operand is formatted by Rust's `to_string`
                       exactly as by the semantics' `N.toStr` (`%.14g`);
-* F4    `interpOK`  — every interpolated value the evaluator cannot determine is already declared
-                      effectful (`tostring` may run `__tostring`);
+* (F4 — an undetermined interpolated value declared pure — is FIXED in /repo: `interpOK` is gone)
 * `refEqOK`         — at every `==`/`~=` whose sides both evaluate to `Table` (or both to `Function`),
                       both sides are declared side-effect free.
 -/
@@ -66,8 +65,7 @@ mutual
   def h8Segs (E : EvalOps N) : List Seg → Bool
     | [] => true
     | .s _ :: rest => h8Segs E rest
-    | .v e :: rest =>
-      h8 E e && (!isUnknown (evaluate E e) || hasSideEffects E false e) && h8Segs E rest
+    | .v e :: rest => h8 E e && h8Segs E rest
 
   def h8Entries (E : EvalOps N) : List Entry → Bool
     | [] => true
